@@ -78,6 +78,7 @@ type Sys struct {
 	pending  [][]string // successful uncommitted writes since the last clean point
 	ivDone   bool       // IvLate: SetInitialVersion has been called
 	ivWrites int        // IvLate: writes before that
+	cstats   map[string]int // statistics of the cache audits
 }
 
 func newSys(cfg Config) (*Sys, error) {
@@ -850,6 +851,9 @@ func (s *Sys) exec1(toks []string) string {
 			}
 			if toks[1] == "raw" {
 				return s.auditRaw()
+			}
+			if toks[1] == "cache" {
+				return s.auditCache()
 			}
 			if toks[1] == "fastvals" { // label and values, without the entry versions
 				return s.auditFast(false)
